@@ -88,6 +88,9 @@ func (sc *Scenario) Clone() *Scenario {
 	b, _ := json.Marshal(sc)
 	var c Scenario
 	json.Unmarshal(b, &c)
+	if c.N == nil {
+		c.N = map[string]int64{}
+	}
 	return &c
 }
 
@@ -104,6 +107,9 @@ func LoadScenario(path string) (*Scenario, error) {
 	var sc Scenario
 	if err := json.Unmarshal(b, &sc); err != nil {
 		return nil, fmt.Errorf("%s: %v", path, err)
+	}
+	if sc.N == nil {
+		sc.N = map[string]int64{}
 	}
 	return &sc, nil
 }
